@@ -55,10 +55,10 @@ class P(core.Prop):
     rule = ('a real TorConfig bootstrapped over a real TorControlProtocol from a scripted Tor (table of 4-9 options '
             'covering every declared type incl. a *PortLines group (unset / auto / one / many lines, __<X> defaults), initial values set/unset, config/defaults '
             'present or not); then 1-24 operations: assignments (valid and invalid values per type, names in random '
-            'case), in-place list operations on what a read returns (append/extend/insert/remove/pop/setitem, valid '
+            'case; config.A = config.B with the tracked list read from another list option or from the option itself), in-place list operations on what a read returns (append/extend/insert/remove/pop/setitem, valid '
             'and invalid indices), saves answered 250 or 5xx, reads, needs_save(); 65% of the histories are steered '
             'clear of the two open finding classes, the rest are unconstrained; a boundary stream adds double '
-            'saves, reject-then-accept, many options pending at once and quoting-heavy values. '
+            'saves, reject-then-accept, many options pending at once, quoting-heavy values and copy-save-edit-save on both options. '
             'non-trivial = at least one save that wrote a SETCONF and at least 3 operations; distinct = distinct case')
     trusted = ["Twisted's StringTransport; harness/cfgworld.py (scripted Tor: PROTOCOLINFO/AUTHENTICATE/GETINFO/"
                "GETCONF answers in Tor's wire format, SETCONF answered per case)",
@@ -213,6 +213,20 @@ class P(core.Prop):
             return ['listop', name, 'pop', rng.choice([0, -1, n - 1, n, -n, -n - 1, 1])]
         return ['listop', name, 'setitem', rng.choice([0, -1, n - 1, n, -n - 1, 1]), self._elem(rng, k)]
 
+    def _copy(self, rng, sim, lists):
+        """config.<dst> = config.<src> between list options (a comma list only from a comma list; also dst == src);
+        the source has nothing pending (otherwise outside the envelope)"""
+        srcs = [(cn, k) for cn, k in lists if cn not in sim.pend]
+        rng.shuffle(srcs)
+        for cs, ks in srcs:
+            dsts = [(cn, k) for cn, k in lists if (k != 'KComma' or ks == 'KComma')]
+            if dsts:
+                cd, kd = rng.choice(dsts) if rng.random() < 0.85 else (cs, ks)
+                if kd == 'KComma' and ks != 'KComma':
+                    continue
+                return ['copy', casevar(rng, cd), casevar(rng, cs)]
+        return None
+
     def _history(self, rng, table, store, defaults, clean, n_ops):
         tab = [tuple(r) for r in table]
         dfl = None if defaults is None else [tuple(d) for d in defaults]
@@ -224,9 +238,13 @@ class P(core.Prop):
         while len(ops) < n_ops and tries < n_ops * 12:
             tries += 1
             r = rng.random()
-            if r < 0.30:
+            if r < 0.26:
                 cn, k = rng.choice(opts)
                 op = ['assign', casevar(rng, cn), self._value(rng, k)]
+            elif r < 0.33 and lists:
+                op = self._copy(rng, sim, lists)
+                if op is None:
+                    continue
             elif r < 0.62 and lists:
                 cn, k = rng.choice(lists)
                 op = self._listop(rng, sim, cn, k, casevar(rng, cn))
@@ -254,7 +272,7 @@ class P(core.Prop):
         opts = sim.opts
         lists = [(cn, k) for cn, k in opts if k in ('KComma', 'KLine', 'KPorts')]
         pat = rng.choice(['double_save', 'reject_accept', 'many_pending', 'quoting', 'list_roundtrip', 'reassign',
-                          'reject_edit_accept'])
+                          'reject_edit_accept', 'copy_then_edit', 'copy_then_edit'])
         ops = []
         if pat == 'double_save':
             cn, k = rng.choice(opts)
@@ -288,6 +306,19 @@ class P(core.Prop):
             ops = [['listop', cn, 'append', self._elem(rng, k)], ['save', 552],
                    ['listop', cn, 'append', self._elem(rng, k)], ['listop', cn, 'pop', 0], ['save', None],
                    ['read', cn], ['needs_save']]
+        elif pat == 'copy_then_edit' and lists:
+            # A = B (the tracked list read from B), save, then in-place edits of A and of B: two independent options
+            op = self._copy(rng, sim, lists)
+            if op is not None:
+                dst, src = op[1], op[2]
+                kd = sim.find(dst)[1]
+                ks = sim.find(src)[1]
+                first, second = (dst, kd), (src, ks)
+                if rng.random() < 0.4:
+                    first, second = second, first
+                ops = [op, ['save', None], ['listop', first[0], 'append', self._elem(rng, first[1])], ['needs_save'],
+                       ['save', None], ['read', dst], ['read', src],
+                       ['listop', second[0], 'insert', 0, self._elem(rng, second[1])], ['save', None], ['read', src], ['read', dst]]
         if not ops:
             ops = [['needs_save'], ['save', None]]
         return ops
@@ -313,6 +344,13 @@ class P(core.Prop):
             out.append({'table': table, 'store': store, 'defaults': defaults, 'ops': ops})
         return out
 
+    def _copies_pending(self, table, store, ops):
+        """a copy whose source has a pending change is outside the envelope (Spec.C10.copy_of_pending)"""
+        sim = Sim([tuple(r) for r in table], store, [('Log', 'dflt')])
+        for o in ops:
+            sim.step(o)
+        return sim.fs
+
     def exhaustive(self, tier):
         if tier != 'thorough':
             return [], None
@@ -323,18 +361,19 @@ class P(core.Prop):
                  ['assign', 'exitnodes', ['s', 'c,d']],
                  ['listop', 'Log', 'append', ['s', 'y z']], ['listop', 'Log', 'pop', None],
                  ['listop', 'ExitNodes', 'remove', ['s', 'a']], ['listop', 'ExitNodes', 'insert', 0, ['s', 'q']],
+                 ['copy', 'Log', 'exitnodes'],
                  ['save', None], ['save', 552], ['read', 'Log'], ['needs_save']]
         out = []
 
         def rec(prefix, depth):
-            if prefix:
+            if prefix and not self._copies_pending(table, store, prefix):
                 out.append({'table': table, 'store': store, 'defaults': [['Log', 'dflt']], 'ops': list(prefix) + [['save', None]]})
             if depth == 0:
                 return
             for a in alpha:
                 rec(prefix + [a], depth - 1)
         rec([], 3)
-        return out, 'every history of length <= 3 (+ a final save) over an 11-operation alphabet on a 3-option table'
+        return out, 'every history of length <= 3 (+ a final save) over a 12-operation alphabet (incl. config.Log = config.exitnodes) on a 3-option table'
 
     def shrink_candidates(self, case):
         ops = case['ops']
@@ -342,8 +381,10 @@ class P(core.Prop):
             yield dict(case, ops=ops[:i] + ops[i + 1:])
         used = set()
         for o in ops:
-            if o[0] in ('assign', 'listop', 'read'):
+            if o[0] in ('assign', 'listop', 'read', 'copy'):
                 used.add(o[1].lower())
+            if o[0] == 'copy':
+                used.add(o[2].lower())
         tab = case['table']
         for i, (n, t) in enumerate(tab):
             base = n.lower()
